@@ -105,6 +105,7 @@ type Exec struct {
 	P         *Loaded
 	st        *State
 	cleanExit *Term // path conditions of os.Exit(0) in driver mode
+	callSeen  map[string]bool // call clauses evaluated at least once (callee.label)
 	deadline  time.Time // execution budget of the target
 	steps     int
 	loopSeen, loopBack map[string]bool // loops cut by invariants / whose back edge was reached
@@ -2430,6 +2431,10 @@ func (x *Exec) callSiteClauses(fr *Frame, fn *ssa.Function, args []Value, pos to
 		r := x.callFunction(gf, ga, nil, true)
 		x.st = saved
 		x.curFunc = append(x.curFunc, fnName(fr.fn))
+		if x.callSeen == nil {
+			x.callSeen = map[string]bool{}
+		}
+		x.callSeen[shortFn(fn)+"."+c.Label] = true
 		x.oblige("P", "call:"+shortFn(fn)+"."+c.Label, term(r), pos)
 		x.curFunc = x.curFunc[:len(x.curFunc)-1]
 	}
